@@ -8,7 +8,7 @@
 (* FilterRangesWhileDeleting it is not (the order dependence repaired in 09088d5).             *)
 EXTENDS Integers, Sequences, FiniteSets, TLC
 CONSTANTS DeleteAbsentDropsLast, FilterRangesWhileDeleting
-M == INSTANCE OMapImpl
+M == INSTANCE OMapImpl WITH FilterDeletesBeforePanic <- FALSE
 C == INSTANCE Chk
 
 \* a written rule: name + (for the bool rules) its value
